@@ -84,11 +84,15 @@ Definition mon6_step (cfg : gw_cfg) (s : gw_state) (ev : gw_event) (os : list ob
                       | _ => bpub end
                end in
   let is_sn := match ev with EvSn _ => true | _ => false end in
+  (* a new client exchange supersedes an unfinished earlier client exchange with the same ID: the property
+     protects the exchange in progress (the new one), not the superseded one *)
+  let newc0 := if is_sn then ms ≫= (fun p => match p with MqPublish _ 1 _ _ i _ => [i] | MqSubscribe i _ _ => [i] | _ => [] end) else [] in
+  let keep (l : list (N * N)) := List.filter (fun e => negb (memN (fst e) newc0)) l in
   let cpub2 := if is_sn then
-                 cpub1 ++ (ms ≫= (fun p => match p with MqPublish _ 1 _ _ i _ => [(i, t0 + retry_delay cfg)] | _ => [] end))
+                 keep cpub1 ++ (ms ≫= (fun p => match p with MqPublish _ 1 _ _ i _ => [(i, t0 + retry_delay cfg)] | _ => [] end))
                else cpub1 in
   let csub2 := if is_sn then
-                 csub1 ++ (ms ≫= (fun p => match p with MqSubscribe i _ _ => [(i, t0 + retry_delay cfg)] | _ => [] end))
+                 keep csub1 ++ (ms ≫= (fun p => match p with MqSubscribe i _ _ => [(i, t0 + retry_delay cfg)] | _ => [] end))
                else csub1 in
   (* first transmissions written at once (not from the sleep buffer) in the step that handles the
      broker's PUBLISH or the client's REGACK *)
